@@ -29,13 +29,27 @@ FALSE = C(False)
 NONE = C(None)
 
 
+def known_truth(x):
+    """truth value of a literal (None when it is not one)"""
+    if x[0] == 'const':
+        return bool(x[1])
+    if x[0] in ('list', 'tuple') and all(isinstance(e, tuple) and e and e[0] != 'star' for e in x[1]):
+        return bool(x[1])
+    return None
+
+
 def AND(*xs):
+    """`a and b and ...` (short-circuit: nothing after a literal falsy operand is evaluated)"""
     out = []
-    for x in xs:
-        if x == TRUE:
+    for i, x in enumerate(xs):
+        kt = known_truth(x)
+        if x == TRUE or (kt is True and i < len(xs) - 1):
             continue
         if x == FALSE:
             return FALSE
+        if kt is False:
+            out.append(x)
+            break
         if x[0] == 'bool' and x[1] == 'and':
             out.extend(x[2])
         else:
@@ -48,12 +62,17 @@ def AND(*xs):
 
 
 def OR(*xs):
+    """`a or b or ...` (short-circuit: nothing after a literal truthy operand is evaluated)"""
     out = []
-    for x in xs:
-        if x == FALSE:
+    for i, x in enumerate(xs):
+        kt = known_truth(x)
+        if x == FALSE or (kt is False and i < len(xs) - 1):
             continue
         if x == TRUE:
             return TRUE
+        if kt is True:
+            out.append(x)
+            break
         if x[0] == 'bool' and x[1] == 'or':
             out.extend(x[2])
         else:
